@@ -74,11 +74,30 @@ func (m *CoopRWMutex) TryRLock() bool {
 	return false
 }
 
+// CoopOnce is the script-visible sync.Once: the real one holds a runtime mutex
+// while the function runs, on which a second caller would block non-durably.
+type CoopOnce struct {
+	done atomic.Uint32
+	m    CoopMutex
+}
+
+func (o *CoopOnce) Do(f func()) {
+	if o.done.Load() == 0 {
+		o.m.Lock()
+		defer o.m.Unlock()
+		if o.done.Load() == 0 {
+			defer o.done.Store(1)
+			f()
+		}
+	}
+}
+
 // SyncOverride is passed to Use after stdlib.Symbols.
 var SyncOverride = map[string]map[string]reflect.Value{
 	"sync/sync": {
 		"Mutex":   reflect.ValueOf((*CoopMutex)(nil)),
 		"RWMutex": reflect.ValueOf((*CoopRWMutex)(nil)),
+		"Once":    reflect.ValueOf((*CoopOnce)(nil)),
 	},
 }
 
